@@ -13,6 +13,9 @@ DECIDES = ("Static analysis (level 'other'): decides the listed structural claus
            "/repo's current source; each is a necessary condition of the property. It does not decide the behavioural "
            "remainder listed under 'Declines' in DESIGN.md section 4 %s.")
 
+COMMON = (" Shared clauses under the rule that owns the object's state: record objects are zero-filled at allocation or fully stored before they are returned; "
+          "a path that fills in the error argument returns a failure value; tests of system-call results put 0 / a valid descriptor on the success side. ")
+
 CLAIMED = {
     "C01": dict(
         text="Rules C01.1-C01.5: pthread_mutex wrapper wiring with exact TRUE/FALSE mapping and non-blocking trylock, the native mutex created "
